@@ -234,6 +234,15 @@ def _replay_time_average(case, clause, model, seed):
     for _ in range(60):
         T = int(rng.integers(2, 14))
         cands.append(("rand", T, int(rng.integers(1, 4)), int(rng.integers(1, T + 1))))
+    # periods that are EXACT multiples of the frame interval (the statement names them): decimal inputs whose float quotient
+    # period / interval is exactly the integer w, so that the statement over the reals and the float evaluation agree
+    from fractions import Fraction
+    exact = []
+    for step_e, dt_e in ((50, "0.002"), (100, "0.001"), (10, "0.01"), (4, "0.25"), (1, "1.0"), (25, "0.004")):
+        for w in (1, 2, 3, 5, 10):
+            per = float(Fraction(step_e) * Fraction(dt_e) * w)
+            if per / (step_e * float(dt_e)) == w:
+                exact.append(("exact", w + 4, 2, w, step_e, float(dt_e), per))
     def ts_model(f):
         ent = model.get("TS")
         if isinstance(ent, dict):
@@ -243,15 +252,18 @@ def _replay_time_average(case, clause, model, seed):
             if isinstance(ent.get("else"), int):
                 return ent["else"]
         return None
-    for kind, T, N, w in cands:
-        step = int(rng.integers(1, 50)) * 10
+    for cand in exact + cands:
+        kind, T, N, w = cand[:4]
+        step = int(rng.integers(1, 50)) * 10 if kind != "exact" else cand[4]
         ts = [1000 + step * f for f in range(T)]
         if kind == "model" and ts_model(0) is not None and ts_model(1) is not None and ts_model(1) > ts_model(0):
             step = ts_model(1) - ts_model(0)
             ts = [ts_model(0) + step * f for f in range(T)]
-        dt = float(rng.choice([0.002, 0.005, 0.25, 1.0]))
+        dt = float(rng.choice([0.002, 0.005, 0.25, 1.0])) if kind != "exact" else cand[5]
         interval = step * dt
-        if w is None:
+        if kind == "exact":
+            period = cand[6]
+        elif w is None:
             period = _fr(model.get("period"))
             dtm = _fr(model.get("dt"))
             if period is None or dtm is None or dtm <= 0:
@@ -864,6 +876,9 @@ def extra_checks(tier, seed, repo):
     return {"bounded": bounded}
 
 UNITS = [TimeAverage(), SpatialAverage(), GridGaussian(), GaussianBlurring()]
+# callee contracts of other properties used at call sites: their units are re-verified with this check
+from contracts.common import callee_units as _callee_units   # noqa: E402
+UNITS = UNITS + _callee_units([('C02', None), ('C05', {'read_neighbors'})], UNITS)
 
 MANIFEST = {
     "text": "time_average, spatial_average, gaussian_blurring (utils/coarse_graining.py) and grid_gaussian (utils/funcs.py), real ASTs re-read every run, symbolic frame number T, particle number N, trailing dimensions, grid sizes n0,n1(,n2) >= 2, window length, Nmax, sigma, cutoff, periodicity mask: (1) time_average returns T-w rows with w = floor(period/((ts1-ts0) dt)), row n = mean of frames n..n+w-1 (float and complex input), and reports the central frame of that window (n+(w-1)/2 for odd w, one of the two middle frames for even w); (2) spatial_average[n,i,..] = (A[n,i,..] + sum over the first min(cn,Nmax) listed neighbours j of A[n,j,..]) / (1 + min(cn,Nmax)) for ranks 0,1,2 (float, complex), with the n-th record of the neighbour file used for frame n (one handle, read_neighbors callee contract), input array not written, saved file = returned array; (3) gaussian_blurring: the store that fills the grid uses a flat index that lies in [0, prod n), is injective on the index tuples, equals the row-major index with x slowest, the loops run over all n0*n1(*n2) tuples, and the stored point is (X_i,Y_j[,Z_k]) with X,Y,Z equally spaced from the lower to the upper box bound of the same frame (2D and 3D, equal or unequal numbers per axis); for every frame n, returned grid point p and trailing index, grid_property = sum over particles q with |D| < cutoff of exp(-|D|^2/(2 sigma^2))/sqrt(2 pi sigma^2) * property[n,q,..], D the minimum image (C02 contract) of grid point minus particle position (scalar, vector, tensor); inputs not written, saved files = returned arrays; (4) grid_gaussian(x, sigma) = exp(-x^2/(2 sigma^2))/sqrt(2 pi sigma^2) elementwise.",
